@@ -470,7 +470,9 @@ func (m *monitor) runModule() {
 		}
 		ks := minus(all, works)
 		if len(ks) == 0 {
-			ks = all
+			// every kind on the path works somewhere in this module (partial breakage): blame the
+			// edge nearest to the unfrozen node
+			ks = all[len(all)-1:]
 		}
 		if len(ks) > 1 {
 			ever := map[string]bool{}
